@@ -30,7 +30,11 @@ DEFAULTS = {
     "d9": ("12345678901234567890", 12345678901234567890), "d10": ("''", "''"), "d11": ("0", 0), "d12": ("'NULL'", "'NULL'"),
     "d13": ("FALSE", "FALSE"), "d14": ("'2020-01-01'", "'2020-01-01'"),
     "d15": ("(NULL)", "NULL"), "d16": ("':)'", "':)'"), "d17": ("'a)b'", "'a)b'"), "d18": ("'n/a)'", "'n/a)'"), "d19": ("','", "','"),
+    "d20": ("-1.5", "-1.5"), "d21": ("+0.25", "+0.25"), "d22": ("-0.0", "-0.0"), "d23": ("0.00", "0.00"),
+    # decimal literals outside the lexer's number pattern (no digit before / after the point, an exponent): finding exotic_decimal
+    "d24": (".5", ".5"), "d25": ("1.", "1."), "d26": ("1.5e3", "1.5e3"),
 }
+DEFAULT_TAGS = {"d24": "exotic_decimal", "d25": "exotic_decimal", "d26": "exotic_decimal"}
 # references: id -> (schema, table, on_delete, on_update, clause order)
 REFS = {
     "r1": (None, "o", None, None),
